@@ -62,6 +62,37 @@ def _xcheck(s, status):
             pass
 
 
+SECOND = {}
+
+
+def _second_opinion(solver, timeout_ms):
+    import shutil
+    import subprocess
+    import tempfile
+    exe = shutil.which("cvc5")
+    if exe is None or os.environ.get("VERIF_NO_CVC5") or not (XCHECK["enabled"] or os.environ.get("VERIF_CVC5")):
+        return None, 0.0                           # thorough tier only (the quick tier cannot afford a second timeout per open query)
+    t = time.time()
+    try:
+        text = solver.to_smt2()
+        if "FloatingPoint" not in text and "fp." not in text:
+            return None, 0.0                       # only worth it for floating-point queries
+        fd, path = tempfile.mkstemp(suffix=".smt2")
+        with os.fdopen(fd, "w") as f:
+            f.write(text)
+        budget = max(5, min(120, timeout_ms // 1000))
+        p = subprocess.run([exe, f"--tlimit={budget * 1000}", path], capture_output=True, text=True, timeout=budget + 10)
+        os.unlink(path)
+        out = (p.stdout or "").strip().splitlines()
+        if any("(error" in l for l in out):
+            return None, time.time() - t
+        ans = next((l.strip() for l in out if l.strip() in ("sat", "unsat", "unknown")), None)
+        SECOND["asked"] = SECOND.get("asked", 0) + 1
+        return ans, time.time() - t
+    except Exception:  # noqa
+        return None, time.time() - t
+
+
 def check(constraints, timeout_ms=20000):
     """-> (status 'sat'|'unsat'|'unknown', model|None, seconds)"""
     s = z3.Solver()
@@ -81,7 +112,13 @@ def check(constraints, timeout_ms=20000):
         return "sat", s.model(), dt
     if r == z3.unsat:
         return "unsat", None, dt
-    return "unknown", None, dt
+    # z3 gave up: a second solver (cvc5, strong on floating point) may still close the query.  Only `unsat` is taken from it
+    # (a proof by another trusted solver); anything else leaves the query undecided.
+    r2, dt2 = _second_opinion(s, int(timeout_ms))
+    if r2 == "unsat":
+        SECOND["unsat"] = SECOND.get("unsat", 0) + 1
+        return "unsat", None, dt + dt2
+    return "unknown", None, dt + dt2
 
 
 def _q2f(v):
